@@ -246,6 +246,70 @@ fn q2(case: &SpecialCase, ctx: &Ctx, rng: &mut Rng, out: &mut RunOut) {
     if out.violations.is_empty() {
         views(&model, out, if alloc_all { "after-freeing-everything" } else { "after-exhaustion" });
     }
+    if alloc_all && out.violations.is_empty() {
+        // everything was freed: now exactly the managed frames must be allocatable again,
+        // with mixed orders first (a block must never reach beyond the managed count)
+        let mut rr = Rng::new(frames as u64 ^ 0x51);
+        let r = guarded(|| {
+            let mut errs: Vec<(String, String)> = Vec::new();
+            let mut calls = 0u64;
+            let mut fails = 0;
+            loop {
+                let order = if fails == 0 { *rr.pick(&[0usize, 0, 1, 1, 2, 3, 5]) } else { 0 };
+                // a request larger than the managed range is (rightly) an argument error
+                let order = if (1usize << order) > frames { 0 } else { order };
+                let req = request(order, 0, Some(0));
+                let r = match alloc.get(None, req) {
+                    Err(Error::Memory) => {
+                        alloc.drain();
+                        alloc.get(None, req)
+                    }
+                    r => r,
+                };
+                calls += 1;
+                match r {
+                    Ok((f, _)) => {
+                        let b = Block::new(f.0, order);
+                        if b.end() > frames || !Model::aligned(&b) {
+                            errs.push(("block-beyond-range".into(), format!("get(order {order}) returned frames {}..{} of {frames}", b.frame, b.end())));
+                            break;
+                        }
+                        if !model.is_free_block(&b) {
+                            errs.push(("frame-twice".into(), format!("get(order {order}) returned frame {} which is already allocated", f.0)));
+                            break;
+                        }
+                        model.apply_get(&b);
+                    }
+                    Err(Error::Memory) if order > 0 => fails += 1,
+                    Err(Error::Memory) => break,
+                    Err(e) => {
+                        errs.push(("get-error".into(), format!("get returned {e:?}")));
+                        break;
+                    }
+                }
+                if calls as usize > 2 * frames + 16 {
+                    break;
+                }
+            }
+            if errs.is_empty() && model.free_frames() != 0 {
+                errs.push(("not-all-frames-allocatable".into(), format!("{} of {frames} frames could not be allocated again", model.free_frames())));
+            }
+            (errs, calls)
+        });
+        match r {
+            Ok((errs, calls)) => {
+                bump(out, "calls", calls);
+                for (sig, d) in errs {
+                    viol(out, &format!("realloc-{sig}"), d);
+                }
+            }
+            Err(Outcome::Panic { msg, loc }) => viol(out, &panic_signature(&msg, &loc), format!("panicked: {msg} at {loc}")),
+            Err(_) => {}
+        }
+        if out.violations.is_empty() {
+            views(&model, out, "after-allocating-everything-again");
+        }
+    }
     bump(out, if alloc_all { "alloc_all_runs" } else { "free_all_runs" }, 1);
     if frames % HUGE_FRAMES != 0 {
         bump(out, "partial_last_huge_frame", 1);
@@ -698,6 +762,35 @@ fn q8(rng: &mut Rng, out: &mut RunOut) {
         Err(Outcome::Panic { msg, loc }) => return viol(out, &panic_signature(&msg, &loc), format!("create panicked: {msg} at {loc}")),
         Err(_) => return,
     }
+    // a differently sized region that shares its END (and therefore the header page) with the
+    // instance: it starts one tree later or earlier
+    for later in [true, false] {
+        let (start, len) = if later {
+            if total <= TREE_FRAMES + meta_pages + 8 {
+                continue;
+            }
+            (aligned + tree_bytes, total - TREE_FRAMES)
+        } else {
+            if slot == 0 {
+                continue; // no mapped room in front
+            }
+            (aligned - tree_bytes, total + TREE_FRAMES)
+        };
+        let z: &'static mut [Frame] = unsafe { std::slice::from_raw_parts_mut(start as *mut Frame, len) };
+        let zms = LLFree::metadata_size(&classing, len);
+        match guarded(|| NvmAlloc::<LLFree>::create(z, true, &classing, vol(zms.local), vol(zms.trees)).map(|_| ())) {
+            Ok(Err(Error::Initialization)) => bump(out, "recover_same_end_other_size_rejected", 1),
+            Ok(r) => {
+                return viol(
+                    out,
+                    "recover-with-different-size",
+                    format!("create(recover=true) on a region of {len} frames that only shares its last (header) page with the instance of {total} frames returned {r:?}"),
+                );
+            }
+            Err(Outcome::Panic { msg, loc }) => return viol(out, &panic_signature(&msg, &loc), format!("create panicked: {msg} at {loc}")),
+            Err(_) => return,
+        }
+    }
     let rec = match guarded(|| NvmAlloc::<LLFree>::create(zone(total), true, &classing, vol(ms.local), vol(ms.trees))) {
         Ok(Ok(a)) => a,
         Ok(Err(e)) => return viol(out, "recover-error", format!("create(recover=true) on its own instance returned {e:?}")),
@@ -794,6 +887,10 @@ fn qb(ctx: &Ctx, rng: &mut Rng, out: &mut RunOut) {
     let classing = cfg.classing();
     let ms = LLFree::metadata_size(&classing, frames);
     let a = &ctx.arenas;
+    if unsafe { a.local.slice_at(0, 0) }.is_none() {
+        // heap buffer mode (sanitizer builds): arbitrary placement is not available
+        return;
+    }
     // which buffer is malformed and how
     let which = rng.below(3);
     let fault = rng.below(4);
@@ -807,17 +904,17 @@ fn qb(ctx: &Ctx, rng: &mut Rng, out: &mut RunOut) {
                 match fault {
                     0 => {
                         desc = format!("buffer {i} one byte short ({} of {})", sizes[i].saturating_sub(1), sizes[i]);
-                        arenas[i].slice_at(0, sizes[i].saturating_sub(1))
+                        arenas[i].slice_at(0, sizes[i].saturating_sub(1)).unwrap()
                     }
                     1 => {
                         let sh = rng.range(1, 63);
                         desc = format!("buffer {i} shifted by {sh} bytes");
-                        arenas[i].slice_at(sh, sizes[i])
+                        arenas[i].slice_at(sh, sizes[i]).unwrap()
                     }
-                    _ => arenas[i].slice_at(0, sizes[i]),
+                    _ => arenas[i].slice_at(0, sizes[i]).unwrap(),
                 }
             } else {
-                arenas[i].slice_at(0, sizes[i])
+                arenas[i].slice_at(0, sizes[i]).unwrap()
             }
         };
         bufs.push(b);
@@ -847,7 +944,7 @@ fn qb(ctx: &Ctx, rng: &mut Rng, out: &mut RunOut) {
             _ => (so / 2) / 64 * 64,
         };
         desc = format!("buffer {which} overlaps buffer {other} at byte offset {off} (sizes {sw}, {so})");
-        let nb = unsafe { ar.slice_at(off, sw) };
+        let nb = unsafe { ar.slice_at(off, sw) }.unwrap();
         match which {
             0 => local = nb,
             1 => trees = nb,
